@@ -2,6 +2,7 @@
 //! usage: vh <subcommand> <cases.json> <obs.json>
 //! cases.json: JSON array of case objects; obs.json: JSON array of observations (same order).
 mod util;
+mod c01;
 mod c02;
 mod c03;
 mod c08;
@@ -61,6 +62,8 @@ fn main() {
     "pair" => cases.iter().map(pair::run_case).collect(),
     "c12" => cases.iter().map(c12::run_case).collect(),
     "c11" => c11::run_all(cases),
+    "c01" => run_parallel(cases, c01::run_case, 8),
+    "c01seq" => cases.iter().map(c01::run_case).collect(),
     "c02" => c02::run_all(cases),
     "c08" => c08::run_all(cases),
     "c18" => run_parallel(cases, c18::run_case, 8),
